@@ -45,6 +45,12 @@ def gen_progs(rng, tier):
         # a writer that publishes late, while the other thread replaces its file by a directory with a child
         ([], [["create_file", "a"]], [["remove_file", "a"], ["create_dir", "a"], ["create_file", "a/b"]]),
         (["createfile 0:j61", "hdrop 1000"], [["append", "a"]], [["remove_file", "a"], ["create_dir", "a"], ["create_dir", "a/b"]]),
+        # a create_file that FAILS (no parent / parent is a file / target is a directory) must have no later effect,
+        # whatever the other thread builds at that path in the meantime
+        ([], [["create_file", "a/f"]], [["create_dir", "a"], ["create_file", "a/f"]]),
+        (["createfile 0:j61", "hdrop 1000"], [["create_file", "a/f"]], [["remove_file", "a"], ["create_dir", "a"], ["create_file", "a/f"]]),
+        (["createdir 0:j61", "createdir 0:j612f62"], [["create_file", "a/b"]], [["remove_dir", "a/b"], ["create_file", "a/b"]]),
+        ([], [["append", "a/f"]], [["create_dir", "a"], ["create_file", "a/f"]]),
     ]
     # open_file stamps the access time: with an explicitly set time before, a third thread can tell whether the stamp
     # of an open_file that later fails was visible (repaired by e051178: stamp and read under one lock)
@@ -94,7 +100,7 @@ def gen_progs(rng, tier):
 
 
 RULE = ("all interleavings at lock-acquisition granularity (depth-first enumeration of the scheduling choices at the "
-        "verif-hooks yield points, one before every RwLock acquisition of MemoryFS) of 8 directed programs around the "
+        "verif-hooks yield points, one before every RwLock acquisition of MemoryFS) of 14 directed programs around the "
         "check-then-act windows, of the pair frame (every ordered pair of the nine calls on the same "
         "entry, on a directory and its child, on a child and its directory; a third of the frame in the quick tier, all of "
         "it in the thorough tier) and of random programs of 2-3 threads x 1-2 calls drawn from create_dir, create_file+write, "
